@@ -109,6 +109,12 @@ add("lang", "file", "enum e%d : float { A%d = 1 };", "enum e%d : double;", "type
     "enum e%d : double { A%d = 0 } q%d;")
 add("impl", "file", "enum e%d : unsigned char { A%d, B%d = 255, C%d };", "enum e%d : unsigned { A%d = 0xffffffff, B%d };", "enum e%d : unsigned long { A%d = 0xffffffffffffffff, B%d };")
 
+# a block-scope declaration with linkage is checked against the file-scope declaration of the same identifier (6.2.2p4, 6.7p4)
+add("lang", "block", "{ extern long gi; }", "{ extern int gf; }", "{ extern int gi(void); }", "{ extern void gf(void); }", "{ extern const int gi; }", "{ extern int garr[5]; }",
+    "{ int gfn2(int); }", "{ extern struct hs gu; }", "{ { extern double gd2%d; } { extern float gd2%d; } }"[:0] or "{ extern float gd; }")
+add("lang", "file", "static int sk%d; void sf%d(void) { int sk%d; { extern int sk%d; } }", "int la%d __asm__(\"x%d\"); void lf%d(void) { extern int la%d __asm__(\"y%d\"); }",
+    "typedef int tk%d; void tf%d(void) { extern int tk%d; }"[:0] or "enum { ek%d }; void ef%d(void) { extern int ek%d; }")
+
 # ---- unsupported features ------------------------------------------------------------------------------------
 add("unsup", "file", "_Atomic int q%d;", "_Atomic(int) q%d;", "int _Atomic q%d;", "_Complex double q%d;", "double _Complex q%d;", "long double q%d = 1.0L;", "struct __attribute__((aligned(8))) ua%d { char c; };",
     "struct __attribute__((packed)) up%d { int a:3; };", "__attribute__((aligned(8))) int q%d;", "[[gnu::packed]] int q%d;", "__asm__(\"nop\");", "long double q%d(long double a) { return a + 1; }",
